@@ -485,4 +485,51 @@ Section WithInner.
     intros hs dflt h H. apply inner_member in H. unfold filter_hosts in H. apply filter_In in H. destruct H.
     split; auto. apply matches_contains; auto.
   Qed.
+
+  (* C05 on top of subset balancing: every list handed to the inner balancer is a sub-list of the cluster's hosts,
+     so membership (and health, when the inner balancer guarantees it) lift to the subset balancer *)
+  Lemma active1_incl : forall hs sels c l, active_entry c (build1 hs sels) = Some l -> incl l hs.
+  Proof.
+    intros hs sels c l H. apply active1_iff in H. destruct H as (_ & _ & _ & ->).
+    intros h Hh. apply create_subset_members in Hh. tauto.
+  Qed.
+
+  Lemma active2_incl : forall hs sels c l, active_entry c (build2 hs sels) = Some l -> incl l hs.
+  Proof.
+    intros hs sels c l H. rewrite active2 in H. destruct c as [|e c]; [discriminate|].
+    destruct (in_dec path_eq_dec (e :: c) (ops2 hs sels)); [|discriminate].
+    destruct (filter_hosts hs (e :: c)) as [|x r] eqn:E; [discriminate|]. inversion H; subst.
+    intros h Hh. rewrite <- E in Hh. unfold filter_hosts in Hh. apply filter_In in Hh. tauto.
+  Qed.
+
+  Theorem subset_member : forall hs sels pol dflt crit h,
+    (choose_host inner (make1 hs sels pol dflt) crit = Some h \/
+     choose_host inner (make2 hs sels pol dflt) crit = Some h) -> In h hs.
+  Proof.
+    intros hs sels pol dflt crit h [H|H]; unfold choose_host in H; cbn [s_fallback make1 make2] in H.
+    - destruct (match first_try (make1 hs sels pol dflt) crit with Some l => inner l | None => None end) as [x|] eqn:E.
+      + inversion H; subst. destruct crit as [c|]; cbn in E.
+        * destruct (active_entry c (build1 hs sels)) as [l|] eqn:A; [|discriminate].
+          apply (active1_incl _ _ _ _ A). apply inner_member; auto.
+        * apply inner_member; auto.
+      + destruct pol; cbn in H; [discriminate|apply inner_member; auto|].
+        apply inner_member in H. apply create_subset_members in H. tauto.
+    - destruct (match first_try (make2 hs sels pol dflt) crit with Some l => inner l | None => None end) as [x|] eqn:E.
+      + inversion H; subst. destruct crit as [c|]; cbn in E.
+        * destruct (active_entry c (build2 hs sels)) as [l|] eqn:A; [|discriminate].
+          apply (active2_incl _ _ _ _ A). apply inner_member; auto.
+        * apply inner_member; auto.
+      + destruct pol; cbn in H; [discriminate|apply inner_member; auto|].
+        apply inner_member in H. unfold filter_hosts in H. apply filter_In in H. tauto.
+  Qed.
+
+  Theorem subset_healthy : (forall l h, inner l = Some h -> shealthy h = true) ->
+    forall b crit h, choose_host inner b crit = Some h -> shealthy h = true.
+  Proof.
+    intros Hh b crit h H. unfold choose_host in H.
+    destruct (first_try b crit) as [l|]; [destruct (inner l) as [x|] eqn:E|].
+    - inversion H; subst; eauto.
+    - destruct (s_fallback b); [eauto|discriminate].
+    - destruct (s_fallback b); [eauto|discriminate].
+  Qed.
 End WithInner.
